@@ -178,6 +178,12 @@ func (s *V2SessionlessTransport) newV2Session(ctx context.Context, opts *V2Sessi
 		return nil, err
 	}
 
+	if cipherLayer == nil {
+		// a nil layer cannot be added to the decoder or used to serialise
+		return nil, fmt.Errorf("unsupported confidentiality algorithm: %v",
+			openSessionRsp.ConfidentialityPayload.Algorithm)
+	}
+
 	sess := &V2Session{
 		v2ConnectionShared:             &s.v2ConnectionShared,
 		LocalID:                        openSessionRsp.RemoteConsoleSessionID,
